@@ -8,6 +8,7 @@ import Mdsort.Spec.Message
 import Mdsort.Spec.Mime
 import Mdsort.Proofs.Mime
 import Mdsort.Model.Eval
+import Mdsort.Spec.HeaderCond
 import Driver.Ast
 import Driver.Wire
 import Driver.Conf
@@ -48,6 +49,19 @@ opaque zoneFFI (name : @& ByteArray) (now : UInt64) : UInt64
 
 @[extern "mdsort_timegm"]
 opaque timegmFFI (y mo d h mi s : UInt32) : UInt64
+
+/-- `(setlocale(LC_CTYPE, "") succeeded) <<< 8 ||| MB_CUR_MAX` of the driver process (the locale is selected from the
+environment before `main` runs, see ffi.c). -/
+@[extern "mdsort_locale_info"]
+opaque localeInfoFFI (unused : UInt32) : UInt32
+
+/-- `mbtowc` on the bytes from offset `off`: upper half 0 = -1, 1 = NUL, n + 1 = a character of n bytes; lower half the character. -/
+@[extern "mdsort_mbtowc"]
+opaque mbtowcFFI (str : @& ByteArray) (off : UInt64) : UInt64
+
+/-- `wcwidth + 1`. -/
+@[extern "mdsort_wcwidth"]
+opaque wcwidthFFI (wc : UInt32) : UInt32
 
 def hexDigit (n : UInt8) : Char :=
   if n < 10 then Char.ofNat (48 + n.toNat) else Char.ofNat (87 + n.toNat)
@@ -161,6 +175,59 @@ def rxOkFFI (p : Model.Pat) : Bool :=
   let r0 : Option UInt32 := r[0]?
   r0 != some 3
 
+/-- The platform's `mbtowc(&wc, s, MB_CUR_MAX)` under the driver's locale, in the form `Model.strnwidth` expects. -/
+def mbtowcEnv (s : Bytes) : Option (Nat × Nat) :=
+  -- a character has at most MB_CUR_MAX (<= 16) bytes: the rest of the value is not needed
+  let r := mbtowcFFI (ba (s.take 16)) 0
+  let n := (r >>> 32).toNat
+  if n == 0 then none else some (n - 1, (r &&& 0xffffffff).toNat)
+
+def wcwidthEnv (wc : Nat) : Int := ((wcwidthFFI wc.toUInt32).toNat : Int) - 1
+
+/-- `strnwidth(str, len)` of expr.c: the model's loop over the platform's `mbtowc`/`wcwidth` (locale of the environment). -/
+def widthEnv : Bytes → Nat → Nat := Model.strnwidth mbtowcEnv wcwidthEnv
+
+def asciiStr (b : Bytes) : String := String.ofList (b.map fun c => Char.ofNat c.toNat)
+
+/-- `inspect <home> <confpath> <key> <val> <lno ascii> <subs ascii: beg/end+beg/end..., x/x for an unset group>`:
+what `expr_inspect` prints for one header entry with these sub-matches. -/
+def handleInspect (args : List Bytes) : String :=
+  match args with
+  | [home, confpath, key, val, lno, subs] =>
+    let parseSub (t : String) : Option Model.Sub :=
+      match t.splitOn "/" with
+      | [a, b] =>
+        match a.toNat?, b.toNat? with
+        | some x, some y => some { str := (val.drop x).take (y - x), off := some (x, y) }
+        | _, _ => if a == "x" then some { str := [], off := none } else none
+      | _ => none
+    match ((asciiStr subs).splitOn "+").mapM parseSub, (asciiStr lno).toNat? with
+    | some ss, some l =>
+      let mh : Model.Match := { ty := .header, lno := l, part := 0, subs := ss, key := some key, val := some val }
+      toHex (Model.exprInspect widthEnv home confpath mh)
+    | _, _ => "BADOP"
+  | _ => "BADOP"
+
+/-- `hcond <names, newline separated> <pattern> <flags ascii: i or -> <message>`: the documented header condition
+(`Spec.headerCands`, `Spec.firstNonNomatch`) with the platform regex library under the driver's locale.
+NOTWF when the message is outside `Spec.read`; else `NOMATCH`, `ERROR`, or `MATCH <name> <decoded value> <so/eo+...>`. -/
+def handleSpecHcond (args : List Bytes) : String :=
+  match args with
+  | [names, pat, flags, m] =>
+    match Spec.read m with
+    | none => "NOTWF"
+    | some (fs, _) =>
+      let p : Model.Pat := { src := pat, icase := flags.contains 105 }
+      if !rxOkFFI p then "BADPATTERN" else
+      match Spec.firstNonNomatch (rxFFI p) (Spec.headerCands fs (names.splitOn 10)) with
+      | none => "NOMATCH"
+      | some (k, v) =>
+        match rxFFI p v with
+        | .ok groups => s!"MATCH {toHex k} {toHex v} " ++ String.intercalate "+" (groups.map fun g =>
+            match g with | none => "x/x" | some (a, b) => s!"{a}/{b}")
+        | _ => "ERROR"
+  | _ => "BADOP"
+
 def strptimeEnv (s : Bytes) : Option (Model.Tm × Bytes) :=
   Gen.dateFormats.findSome? fun f =>
     let r := strptimeFFI f.toUTF8 (ba s)
@@ -242,7 +309,7 @@ def handleEval (args : List Bytes) : String :=
             -- harness layout: <tdir>/<maildir>/<subdir>/<name>, HOME = <tdir>, configuration = <tdir>/conf
             let comps := path.splitOn 47
             let tdir : Bytes := (List.intersperse [47] (comps.take (comps.length - 3))).flatten
-            let dryText := if env.dryrun then " " ++ toHex (Model.matchesInspect Model.widthC tdir (tdir ++ ofString "/conf") false true path ml2) else ""
+            let dryText := if env.dryrun then " " ++ toHex (Model.matchesInspect widthEnv tdir (tdir ++ ofString "/conf") false true path ml2) else ""
             s!"MATCH {ml1} {fl} {String.intercalate ";" (ml2.map matchDump)} {dumpTable (msgs2 0)}{dryText}"
         | t => s!"{triName t} {ml1} {fl}"
   | _ => "BADOP"
@@ -553,6 +620,17 @@ def handleMsg (side op : String) (args : List Bytes) : Option String :=
   | "M", "unfold", [v] => some (toHex (Model.unfoldHeader v))
   | "M", "ctype", [] => some ctypeTable
   | "M", "eval", as => some (handleEval as)
+  | "M", "inspect", as => some (handleInspect as)
+  | "M", "regex", [pat, flags, subject] =>
+    -- the platform regex library under the driver's locale: `regex <pattern> <flags ascii: i or -> <subject>`
+    let p : Model.Pat := { src := pat, icase := flags.contains 105 }
+    some (if !rxOkFFI p then "BADPATTERN" else
+      match rxFFI p subject with
+      | .ok groups => "MATCH " ++ String.intercalate "+" (groups.map fun g =>
+          match g with | none => "x/x" | some (a, b) => s!"{a}/{b}")
+      | .nomatch => "NOMATCH"
+      | .error => "ERROR")
+  | "M", "locale", [x] => some (let r := localeInfoFFI x.length.toUInt32; s!"{r >>> 8} {r &&& 255}")
   | "M", "conform", as => some (handleConform as)
   | "M", "conformtext", as => some (handleConformText as)
   | "M", "lex", as => some (handleLex as)
@@ -669,6 +747,7 @@ def handle (side op : String) (args : List String) : String :=
   | "M", "r2047", some [s] => toHex (Model.rfc2047Decode s)
   | "S", "r2047", some [s] => toHex (cstr (Spec.rfc2047 s))
   | "S", "eval", some as => handleSpecEval as
+  | "S", "hcond", some as => handleSpecHcond as
   | sd, "interp", some as => handleInterp sd as
   | sd, o, some as =>
     if ["tzoff", "tparse", "flagsp", "flagss", "msgflags", "pslice", "pjoin", "dest"].contains o then
